@@ -192,6 +192,48 @@ func runC15(r *mc.Run) {
 	})
 	r.SectionDone(mc.Section{Name: "device-product", Evaluations: int64(done), Exhaustive: done == len(combos)})
 
+	// two-call histories: what the first caller got must not change when a later request is made
+	{
+		quoteB := append([]byte(nil), quote...)
+		for i := 100; i < 200; i++ {
+			quoteB[i] ^= 0xff
+		}
+		seconds := []struct {
+			name string
+			dev  func() *c15dev
+		}{
+			{"success-other-quote", func() *c15dev { return &c15dev{repBytes: repB, outLen: uint32(len(quoteB)), quote: quoteB} }},
+			{"success-shorter-quote", func() *c15dev { return &c15dev{repBytes: repB, outLen: 700, quote: quoteB} }},
+			{"report-error", func() *c15dev { return &c15dev{repErr: errors.New("EIO")} }},
+			{"quote-error", func() *c15dev { return &c15dev{repBytes: repB, qErr: errors.New("EBUSY")} }},
+			{"status-error", func() *c15dev { return &c15dev{repBytes: repB, status: 0x8000000000000000, outLen: 10, content: 2} }},
+			{"outlen-zero", func() *c15dev { return &c15dev{repBytes: repB, outLen: 0, content: 1} }},
+		}
+		for _, sc := range seconds {
+			id := "device/history/first-success-then-" + sc.name
+			if !r.Want(id) {
+				continue
+			}
+			d1 := &c15dev{repBytes: repA, outLen: uint32(len(quote)), quote: quote}
+			var first []byte
+			var err1 error
+			func() { defer world.Recover(&err1); first, err1 = client.GetRawQuote(d1, rds[1]) }()
+			keep := append([]byte(nil), first...)
+			var err2 error
+			func() { defer world.Recover(&err2); _, err2 = client.GetRawQuote(sc.dev(), rds[2]) }()
+			out := "retained"
+			switch {
+			case err1 != nil:
+				r.Violate("device:history:first-call-failed", id, "a successful device exchange yields an error: "+errStr(err1), nil)
+				out = "first-failed"
+			case !bytes.Equal(first, keep) || !bytes.Equal(first, quote):
+				r.Violate("device:history:earlier-result-changed", id, "the bytes returned to the first caller changed when a later request was made ("+sc.name+")", nil)
+				out = "changed"
+			}
+			r.Eval(id, true, "device-history:"+out)
+		}
+	}
+
 	// GetQuote == QuoteToProto(GetRawQuote) on the device path
 	for _, ol := range []uint32{uint32(len(quote)), uint32(len(quote) - 1), 0, uint32(bufSize)} {
 		id := fmt.Sprintf("device/getquote/outlen=%d", ol)
